@@ -18,3 +18,45 @@ pub fn peer(ix: u64) -> PeerId {
 pub fn tiny(args: &Args) -> bool {
     args.extra.get("budget").map(|s| s == "tiny").unwrap_or(false)
 }
+
+// ---------------------------------------------------------------------------------------------
+// Light-weight polling (no condvar: `vmon::exec::Flag` notifies a condvar on every wake, which is a
+// futex syscall per spurious-Pending self-wake; the byte-level workloads here wake millions of times)
+// ---------------------------------------------------------------------------------------------
+use std::{
+    future::Future,
+    pin::Pin,
+    sync::{
+        Arc,
+        atomic::{AtomicBool, Ordering},
+    },
+    task::{Context, Poll, Wake, Waker},
+};
+
+pub struct LightFlag(AtomicBool);
+impl Wake for LightFlag {
+    fn wake(self: Arc<Self>) {
+        self.0.store(true, Ordering::SeqCst);
+    }
+    fn wake_by_ref(self: &Arc<Self>) {
+        self.0.store(true, Ordering::SeqCst);
+    }
+}
+
+/// Poll `f` until it resolves (`Some`) or returns `Pending` without having woken its waker (`None`:
+/// parked on something external). `Err(())` = poll budget exhausted (caller: inconclusive).
+pub fn run_until_parked<F: Future + Unpin>(f: &mut F, max_polls: usize) -> Result<Option<F::Output>, ()> {
+    let flag = Arc::new(LightFlag(AtomicBool::new(false)));
+    let w = Waker::from(flag.clone());
+    let mut cx = Context::from_waker(&w);
+    for _ in 0..max_polls {
+        flag.0.store(false, Ordering::SeqCst);
+        if let Poll::Ready(v) = Pin::new(&mut *f).poll(&mut cx) {
+            return Ok(Some(v));
+        }
+        if !flag.0.load(Ordering::SeqCst) {
+            return Ok(None);
+        }
+    }
+    Err(())
+}
